@@ -98,6 +98,32 @@ func Solve(o *Obligation, opts solveOpts) {
 	base := filepath.Join(opts.dir, smtIdent(o.Name))
 	text := o.smt(false)
 	o.Bytes = len(text)
+	// Quantifier-free first: dropping the quantified *assumptions* only weakens the hypotheses, so `unsat`
+	// there discharges the obligation; anything else falls through to the full query.
+	if !o.ExpectSat && strings.Contains(text, "(forall ") {
+		var qf strings.Builder
+		for _, line := range strings.Split(text, "\n") {
+			if strings.HasPrefix(line, "(assert ") && (strings.Contains(line, "(forall ") || strings.Contains(line, "(exists ")) && !strings.HasPrefix(line, "(assert "+o.Goal) {
+				continue
+			}
+			qf.WriteString(line)
+			qf.WriteByte('\n')
+		}
+		f := base + ".qf.smt2"
+		if err := os.WriteFile(f, []byte(strings.Replace(qf.String(), "@@HEAD@@", "", 1)), 0o644); err == nil {
+			t0 := time.Now()
+			qt := opts.timeoutS
+			if qt > 5 {
+				qt = 5
+			}
+			ans, out := runSolver(context.Background(), solvers[0], f, qt)
+			os.Remove(f)
+			if ans == "unsat" {
+				o.Answer, o.Backend, o.Ms, o.Output = "unsat", solvers[0].name+" (quantifier-free subset of the hypotheses)", time.Since(t0).Milliseconds(), firstLines(out, 2)
+				return
+			}
+		}
+	}
 	files := map[string]string{}
 	for _, sp := range solvers {
 		f := base + "." + sp.name + ".smt2"
